@@ -23,9 +23,18 @@
                   on the fresh loop.  The moment is named after what was pending: a batch hold timer
                   ("during-batch-hold-time"), else a model call ("during-model-call").
 
+  a cancelled request  one more kind of choice ("cancel", k), enabled while request k is under way and nobody was
+                  cancelled yet in this schedule: the caller of request k gives up (`asyncio.wait_for(search, timeout)`
+                  when the timeout fires, a client that disconnects, a sibling failing in a TaskGroup): its task is
+                  cancelled, everything else goes on.  At most one request is cancelled in one schedule.  The moment
+                  is named after what the request was waiting for: room in the batch queue, the batch still being
+                  held ("during-batch-hold-time"), or the model ("during-model-call").
+
 The class is put on the `Env` object that the explorer created (`adopt`), the explorer itself is unchanged.
 """
 from __future__ import annotations
+
+import inspect
 
 from vf.engines import aio
 
@@ -47,7 +56,7 @@ def is_injected(e):
 
 class C19Env(aio.Env):
     @classmethod
-    def adopt(cls, env, world, first_round, second_loop=False, fail=False, abandon=False):
+    def adopt(cls, env, world, first_round, second_loop=False, fail=False, abandon=False, cancel=False):
         env.__class__ = cls
         env.w = world
         env.first_round = list(first_round)     # labels of the requests of round 1
@@ -65,6 +74,10 @@ class C19Env(aio.Env):
         env.abandon_phase = None    # what was going on at that moment
         env.cut = set()             # requests that were under way and went with the loop
         env.dropped = set()         # requests of round 1 that had not arrived yet: they never do
+        env.cancel = bool(cancel)   # ("cancel", k) is a choice
+        env.cancelled_req = None    # the request whose caller gave up
+        env.cancel_phase = None     # what it was waiting for at that moment
+        env.inflight_at_cancel = set()  # the other requests that were under way at that moment
         return env
 
     def burst(self, labels):
@@ -84,6 +97,13 @@ class C19Env(aio.Env):
         if self.abandon and not self.switched and any(not t.done() for t in self._harness.values()):
             # listed last: the schedule without deviations never abandons
             out.append(("abandon",))
+        if self.cancel and self.cancelled_req is None and out:
+            # listed last: the schedule without deviations never cancels; not offered when nothing else can happen
+            # (a deadlock stays a deadlock)
+            for k, t in self._harness.items():
+                # a request that has not run yet is left alone: cancelling it = it never arrived
+                if not t.done() and inspect.getcoroutinestate(t.get_coro()) != inspect.CORO_CREATED:
+                    out.append(("cancel", k))
         return out
 
     def _filter(self, out):
@@ -120,6 +140,17 @@ class C19Env(aio.Env):
             self.released = True        # round 2 does not wait for results of round 1 any more
             self._next_loop()
             return
+        if label[0] == "cancel":
+            k = label[1]
+            task = self._harness.get(k)
+            if task is None or task.done() or self.cancelled_req is not None:
+                raise aio.HarnessError(f"choice {label!r} is not enabled (trace so far {self.trace!r})")
+            self.trace.append(label)
+            self.cancelled_req = k
+            self.cancel_phase = self._waiting_for(k)
+            self.inflight_at_cancel = {j for j, t in self._harness.items() if j != k and not t.done()}
+            task.cancel()
+            return
         if label[0] == "ext" and label[1][0] == "model-raises":
             w = self.w
             w.failed = label[1][1]
@@ -141,6 +172,23 @@ class C19Env(aio.Env):
         aio.Env.settle(self)
         if self.second_loop and not self.switched and all(k in self.results for k in self.first_round):
             self._next_loop()
+
+    def _waiting_for(self, k):
+        """what request k is waiting for (only used to name the moment of its cancellation)"""
+        _names, fut = self.where_blocked(k)
+        for idx in self.w.indexes:
+            ev = getattr(idx, "_current_batch_submitted", None)
+            if fut is not None and ev is not None and fut in getattr(ev, "_waiters", ()):
+                return "while-waiting-for-room-in-the-batch-queue"
+        for idx in self.w.indexes:
+            ev = getattr(idx, "_current_batch_finished_event", None)   # the batch that is still open
+            if fut is not None and ev is not None and fut in getattr(ev, "_waiters", ()):
+                return "during-batch-hold-time"
+        if any(x[0][0] == "model" and not x[1].done() for x in self._externals):
+            return "during-model-call"
+        if self.loop.pending_timers():
+            return "during-batch-hold-time"
+        return "while-nothing-is-pending"
 
     def started(self):
         return {a[0] for a in self._arrivals if a[3] and a[0] not in self.dropped}
